@@ -1,7 +1,143 @@
-(** C19 — stub while the proofs are being written. *)
-From Coq Require Import List.
-From SR Require Import Model.Toposort.
+(** C19 — topological orderings are enumerated completely and without repetition.
+    Statements only; every proof is [exact <lemma of Proofs/ToposortProofs.v>].
+
+    A graph is the association list of a Python dict of successor sets.
+    [wf g]: distinct keys, every successor is a key (otherwise the code raises
+    [KeyError], which the model reproduces).  [topo g l]: [l] is an arrangement
+    of the vertices in which every edge goes forward.  [set_order ord]: [ord]
+    is a possible iteration order of sets.  Successor lists may even contain
+    repetitions: in-degrees are counted with multiplicity, as the code does. *)
+From Coq Require Import List Bool Arith ZArith Permutation.
+From SR Require Import Model.Toposort Proofs.ToposortProofs.
+From SR Require Proofs.SubseqProofs.
 Import ListNotations.
-Example C19_example : toposort_all [(0,[1]);(1,[0])] = TOk [].
-Proof. reflexivity. Qed.
+
+(* the specification, spelled out *)
+Theorem C19_topo_unfolded : forall g l,
+  topo g l <->
+  Permutation l (map fst g) /\
+  forall u v, (exists ss, In (u, ss) g /\ In v ss) ->
+              exists l1 l2 l3, l = l1 ++ u :: l2 ++ v :: l3.
+Proof. intros g l. reflexivity. Qed.
+Print Assumptions C19_topo_unfolded.
+
+Theorem C19_wf_unfolded : forall g,
+  wf g <->
+  NoDup (map fst g) /\
+  forall u v, (exists ss, In (u, ss) g /\ In v ss) -> In v (map fst g).
+Proof. intros g. reflexivity. Qed.
+Print Assumptions C19_wf_unfolded.
+
+Theorem C19_set_order_unfolded : forall ord,
+  set_order ord <-> forall s, Permutation (ord s) s.
+Proof. intros ord. reflexivity. Qed.
+Print Assumptions C19_set_order_unfolded.
+
+(* the all-orderings routine neither raises nor exhausts its fuel ... *)
+Theorem C19_toposort_all_total : forall g, wf g -> forall ord, set_order ord ->
+  exists R, toposort_all_with ord g = TOk R.
+Proof. exact toposort_all_total. Qed.
+Print Assumptions C19_toposort_all_total.
+
+(* ... returns exactly the topological orderings (complete and sound) ... *)
+Theorem C19_toposort_all_complete_sound : forall g, wf g -> forall ord, set_order ord ->
+  forall R, toposort_all_with ord g = TOk R ->
+  forall l, In l R <-> topo g l.
+Proof. exact toposort_all_complete_sound. Qed.
+Print Assumptions C19_toposort_all_complete_sound.
+
+(* ... each exactly once ... *)
+Theorem C19_toposort_all_nodup : forall g, wf g -> forall ord, set_order ord ->
+  forall R, toposort_all_with ord g = TOk R -> NoDup R.
+Proof. exact toposort_all_nodup. Qed.
+Print Assumptions C19_toposort_all_nodup.
+
+(* ... and none when there is none (the graph has a cycle) *)
+Theorem C19_toposort_all_cyclic_nil : forall g, wf g -> forall ord, set_order ord ->
+  (forall l, ~ topo g l) -> toposort_all_with ord g = TOk [].
+Proof. exact toposort_all_cyclic_nil. Qed.
+Print Assumptions C19_toposort_all_cyclic_nil.
+
+(* the instance evaluated by the correspondence check iterates sets in list order *)
+Theorem C19_executable_instance :
+  (forall g, toposort_all g = toposort_all_with (fun s => s) g) /\ set_order (fun s => s).
+Proof. split; [reflexivity | exact set_order_id]. Qed.
+Print Assumptions C19_executable_instance.
+
+(* the single-ordering routine returns a valid ordering if and only if one exists *)
+Theorem C19_toposort_total : forall g, wf g ->
+  toposort g = TOk None \/ exists l, toposort g = TOk (Some l).
+Proof. exact toposort_total. Qed.
+Print Assumptions C19_toposort_total.
+
+Theorem C19_toposort_sound : forall g, wf g ->
+  forall l, toposort g = TOk (Some l) -> topo g l.
+Proof. exact toposort_sound. Qed.
+Print Assumptions C19_toposort_sound.
+
+Theorem C19_toposort_complete : forall g, wf g ->
+  toposort g = TOk None -> forall l, ~ topo g l.
+Proof. exact toposort_complete. Qed.
+Print Assumptions C19_toposort_complete.
+
+(* outside the property's domain: a successor that is not a key makes both
+   routines raise [KeyError] (what the malformed stream of the correspondence expects) *)
+Theorem C19_toposort_keyerror : forall g, NoDup (map fst g) ->
+  (exists u v, edge g u v /\ ~ In v (map fst g)) -> toposort g = TKeyError.
+Proof. exact toposort_keyerror. Qed.
+Print Assumptions C19_toposort_keyerror.
+
+Theorem C19_toposort_all_keyerror : forall ord g, NoDup (map fst g) ->
+  (exists u v, edge g u v /\ ~ In v (map fst g)) -> toposort_all_with ord g = TKeyError.
+Proof. exact toposort_all_keyerror. Qed.
+Print Assumptions C19_toposort_all_keyerror.
+
+(* well-formedness can be tested *)
+Theorem C19_wfb_wf : forall g, wfb g = true -> wf g.
+Proof. exact wfb_wf. Qed.
+Print Assumptions C19_wfb_wf.
+
+(* link lemma used by C02: the precedence graph built from the leaf syntenies is
+   well formed, and its topological orderings are exactly the duplicate-free
+   arrangements of the gene families of which every leaf synteny is a
+   sub-sequence ([Subseq] is the inductive sub-sequence relation of C18);
+   [make_prec_graph] fails (IndexError) only on an empty synteny *)
+Theorem C19_root_orders : forall leaves g, make_prec_graph leaves = TOk g ->
+  wf g /\
+  forall l, topo g l <->
+    NoDup l /\
+    (forall x, In x l <-> exists s, In s leaves /\ In x s) /\
+    (forall s, In s leaves -> SubseqProofs.Subseq s l).
+Proof. exact root_orders. Qed.
+Print Assumptions C19_root_orders.
+
+Theorem C19_make_prec_graph_total : forall leaves, (forall s, In s leaves -> s <> []) ->
+  exists g, make_prec_graph leaves = TOk g.
+Proof. exact make_prec_graph_total. Qed.
+Print Assumptions C19_make_prec_graph_total.
+
+(* non-vacuity: a well-formed DAG with two orderings, and a well-formed cyclic graph *)
+Definition C19_diamond : graph := [(0, [1; 2]); (1, [3]); (2, [3]); (3, [])].
+Definition C19_cycle : graph := [(0, [1]); (1, [2]); (2, [0]); (3, [])].
+
+Example C19_example :
+  wf C19_diamond /\
+  toposort_all C19_diamond = TOk [[0; 1; 2; 3]; [0; 2; 1; 3]] /\
+  toposort C19_diamond = TOk (Some [0; 1; 2; 3]) /\
+  topo C19_diamond [0; 2; 1; 3] /\
+  wf C19_cycle /\
+  toposort_all C19_cycle = TOk [] /\
+  toposort C19_cycle = TOk None /\
+  (forall l, ~ topo C19_cycle l) /\
+  make_prec_graph [[0; 1; 3]; [0; 2; 3]] = TOk [(0, [1; 2]); (1, [3]); (3, []); (2, [3])].
+Proof.
+  assert (wf C19_diamond) as W1 by (apply wfb_wf; reflexivity).
+  assert (wf C19_cycle) as W2 by (apply wfb_wf; reflexivity).
+  split; [exact W1|]. split; [reflexivity|]. split; [reflexivity|]. split.
+  { apply (toposort_all_complete_sound C19_diamond W1 _ set_order_id _ eq_refl).
+    right; left; reflexivity. }
+  split; [exact W2|]. split; [reflexivity|]. split; [reflexivity|]. split.
+  { apply (toposort_complete C19_cycle W2). reflexivity. }
+  reflexivity.
+Qed.
 Print Assumptions C19_example.
